@@ -104,3 +104,8 @@ Definition c18_load_bound_current : bool := true.
     fix: commit a59cf11); false = before: os.RemoveAll, which took the cache of
     /orbitdb/<root>/a/b along with the one of /orbitdb/<root>/a. *)
 Definition c18_destroy_own_files_current : bool := true.
+
+(** C06/C07: kvstore and documentstore UpdateIndex build a new map from the log and install it
+    (true, fix: commit 779a73f); false = before: the map was never reset, so keys of entries that
+    left the log (Load with a limit on a store holding more) stayed visible. *)
+Definition index_rebuild_resets_current : bool := true.
